@@ -256,6 +256,30 @@ def run_single(binary, cfg, tmp, name, seed, run, tier, known_sigs):
     return read_result(tmp, name), rc, tail(os.path.join(tmp, name + ".stderr"), 20000)
 
 
+def run_range(binary, cfg, tmp, name, seed, frm, to, tier):
+    """Re-runs the run indices frm..to-1 in one fresh process (for deaths that
+    depend on state the code under test keeps between runs, e.g. a
+    package-level pool); returns (died, last run index started, stderr, hang dump)."""
+    extra = dict(
+        VERIF_MODE="explore", VERIF_SEED=str(seed), VERIF_FROM=str(frm), VERIF_TO=str(to),
+        VERIF_STRIDE="1", VERIF_TIER=tier, VERIF_RECHECK="0", VERIF_KNOWN="", VERIF_WATCHDOG_S="30",
+        VERIF_NOSHRINK="1",
+    )
+    for suffix in (".json", ".json.hang", ".progress"):
+        try:
+            os.remove(os.path.join(tmp, name + suffix))
+        except OSError:
+            pass
+    p, errf = start_worker(binary, cfg, tmp, name, extra)
+    rc = p.wait()
+    errf.close()
+    died = read_result(tmp, name) is None
+    m = re.search(r"run=(\d+)", tail(os.path.join(tmp, name + ".progress"), 200))
+
+    return died, (int(m.group(1)) if m else -1), tail(os.path.join(tmp, name + ".stderr"), 30000), \
+        tail(os.path.join(tmp, name + ".json.hang"), 200000), rc
+
+
 def replay_once(binary, cfg, tmp, name, path, tier):
     extra = dict(VERIF_MODE="replay", VERIF_REPLAY=path, VERIF_TIER=tier, VERIF_WATCHDOG_S="30")
     try:
@@ -339,6 +363,12 @@ def confirm_replay(binary, cfg, tmp, path, tier, want_class, want_site):
         res, rc, err = run_single(binary, cfg, tmp, "confirm", rf["seed"], rf["run"], tier, [])
         died = res is None
         return died, died, "process exit %d" % rc
+    if rf.get("mode") == "range":
+        died, at, err, hang, rc = run_range(binary, cfg, tmp, "confirm", rf["seed"], rf["from"], rf["to"], tier)
+        text = hang or err
+        site = (hang_site(text) if (rc == 3 or hang) else crash_site(text)) if died else None
+        ok = died and site == want_site
+        return ok, ok, ("process died at %s during run %d" % (site, at)) if died else "process survived"
     if rf.get("mode") == "death":
         # Crash/hang: the replay is confirmed if the process dies again at the
         # same place of the code under test.
@@ -519,10 +549,30 @@ def drive(args, check_id, cfg, tier, seed, repo, tmp, t_start):
                 if res2.get("violation"):
                     # Reproduced as an ordinary violation this time.
                     results.append(res2)
-                else:
+                    continue
+                # The run alone survives.  The code under test may keep state
+                # between runs (a package-level pool or cache): repeat the
+                # worker's slice up to that run in one fresh process.
+                frm = slices[w][0]
+                died, at, err3, hang3, rc3 = run_range(binary, cfg, tmp, "range%d" % w, cseed, frm, crun + 1, tier)
+                text = hang3 or err3
+                klass = "hang" if (rc3 == 3 or hang3) else "crash"
+                site = (hang_site(text) if klass == "hang" else crash_site(text)) if died else None
+                if not died or not site:
                     harness_errors.append(
-                        "worker %d died (exit %d) during seed=%d run=%d but the run does not reproduce the crash: %s"
-                        % (w, rcs[w], cseed, crun, err[-3000:]))
+                        "worker %d died (exit %d) during seed=%d run=%d but neither the run nor runs %d..%d in a fresh process reproduce the crash: %s"
+                        % (w, rcs[w], cseed, crun, frm, crun, err[-3000:]))
+                    continue
+                rdir = os.path.join(tmp, "replays")
+                os.makedirs(rdir, exist_ok=True)
+                rpath = os.path.join(rdir, "%s-seed%d-runs%d-%d.json" % (check_id, cseed, frm, at))
+                with open(rpath, "w") as f:
+                    json.dump({"property": check_id, "mode": "range", "seed": cseed, "from": frm, "to": at + 1,
+                               "class": klass, "site": site, "message": text[-6000:],
+                               "note": "the process dies only after the preceding runs in the same process: the code under test keeps state between runs"}, f, indent=1)
+                confirmed_deaths += 1
+                results.append(dict(violation={"class": klass, "site": site, "message": text[-3000:]}, replay=rpath,
+                                    runs=0, steps=0, stats=dict(faults={}, probes={}), known_hits={}))
                 continue
             hang2 = tail(os.path.join(tmp, "crash%d.json.hang" % w), 200000)
             text = hang2 or err2
